@@ -72,6 +72,17 @@ CHECKS = {
             "Exhaustive over tiny dimensions/entries, random beyond; every operator that compiles in matvec; "
             "exploration (exhaustive on the finite sub-space).",
             "DESIGN.md §2 C15", TRUST),
+    "C09": ("offline checker over recorded runs: every statistic of gama-local's result XML recomputed from the linear "
+            "system recorded by the trace hook (numpy reference cofactors) and scipy quantiles; scaling relation for sigma-apr",
+            "All numeric fields (dof, m0, confidence scale, chi-square bounds and verdict, cov-mat, ellipses, stdev, qrr, "
+            "f, standardised residuals) of every generated run recomputed independently; exploration.",
+            "DESIGN.md §2 C09", TRUST),
+    "C10": ("reference-model + relational monitor: covariance blocks of the adjusted system (trace hook) vs the sub-matrix "
+            "of the written matrix after exclusions, weighted LS solution vs numpy, diagonal matrix vs stdevs, whitened "
+            "reformulation through Adj, malformed matrices must be refused (sanitized binaries)",
+            "Sampled networks with covariance matrices of every band width and planted exclusions; enumerated malformed "
+            "variants per cluster kind x algorithm; exploration.",
+            "DESIGN.md §2 C10", TRUST),
 }
 
 NOT_APPLICABLE = {}
